@@ -106,7 +106,8 @@ NINE = {"UndefinedName", "DuplicateName", "MissingArgument", "DuplicateArgument"
 FAULT_CLASS = {"undefined-name": {"UndefinedName"}, "duplicate-name": {"DuplicateName"}, "missing-argument": {"MissingArgument"},
                "duplicate-argument": {"DuplicateArgument"}, "access-non-instance": {"NonInstanceAccess"},
                "spread-non-instance": {"NonInstanceSpread"}, "fill-not-last": {"FillNotLast"},
-               "ineffective-spread": {"IneffectiveSpread"}, "conflicting-export": {"ConflictingExport"}}
+               "ineffective-spread": {"IneffectiveSpread"}, "conflicting-export": {"ConflictingExport"},
+               "inexact-named-access": {"UnknownExport"}}
 
 
 def dec(s):
@@ -399,8 +400,9 @@ def run(res, tier, seed, replay):
              "(1 in 6-8 a sub-/super-shape); per library generated WAC programs (2..12 statements, new nested up to 3) mixing "
              "imports by package path / function type / local name (with `as` id|string), lets, new with inferred, named "
              "(identifier|string), spread and `...` arguments, access and named-access chains, exports (inferred name, `as`, "
-             "spread), steered by an approximate kind tracker so that most resolve; + ONE single-fault variant of each (nine "
-             "classes in rotation). Compared per program: error variant + span start + name, or the full graph dump (c06 "
+             "spread), steered by an approximate kind tracker so that most resolve; named accesses sometimes use only the "
+             "version-stripped last path segment (exact lookup must reject it); + ONE single-fault variant of each (the nine "
+             "classes of the property and `inexact-named-access`, in rotation). Compared per program: error variant + span start + name, or the full graph dump (c06 "
              "format), with the extracted Resolver.v; then the extracted LangSpec verdict (composition of values, or "
              "ill-formedness class + name) is checked against what the implementation's own dump/diagnostic denotes, and the "
              "encode result against the documented implicit/explicit import rule. distinct_nontrivial = distinct program texts "
